@@ -537,6 +537,8 @@ class SyncWorld:
                 continue
             except OSError:
                 return
+            if self._stop:
+                return
             idx = len(self.requests)
             self.requests.append(data)
             try:
@@ -547,6 +549,12 @@ class SyncWorld:
 
     def close(self):
         self._stop = True
+        try:  # wake the agent thread instead of waiting for its poll interval
+            s = socket.socket(socket.AF_INET, socket.SOCK_DGRAM)
+            s.sendto(b"", ("127.0.0.1", self.port))
+            s.close()
+        except OSError:
+            pass
         self._thr.join(1.0)
         self.agent.close()
         self.session = None
